@@ -24,7 +24,11 @@ VARIABLE hist      \* observation only: the delivered steps with the projection 
 mcvars == <<tree, n, ndel, last, hist>>
 
 Unspent(nd) == {[c |-> nd.u.outs[i].c, h |-> nd.u.outs[i].h] : i \in nd.u.unspent}
-Proj(nd) == [head |-> nd.head, hhead |-> nd.hhead, unspent |-> Unspent(nd), nleaves |-> Len(nd.u.outs),
+\* k (the delivery counter) only picks the ancestor whose output MMR size bounds the second enumeration
+Proj(nd, k) == [head |-> nd.head, hhead |-> nd.hhead, unspent |-> Unspent(nd), nleaves |-> Len(nd.u.outs),
+             nkernels |-> KernelCount(nd.head),
+             enum |-> EnumOf(nd.u),
+             enumAt |-> LET a == AncAt(nd.head, k % (Height(nd.head) + 1)) IN [b |-> a, cs |-> EnumUpTo(nd, a)],
              orph |-> nd.orph, hdrs |-> nd.hdrs, bodies |-> nd.bodies,
              bestsums |-> {b \in nd.sums : IsAnc(b, nd.head)}, tail |-> nd.tail]
 
@@ -35,7 +39,7 @@ RECURSIVE ValidT(_)
 ValidT(b) == IF b <= Trunk THEN TRUE
              ELSE /\ ValidT(Parent(b)) /\ HeaderOK(b) /\ BodyOK(b)
                   /\ UtxoOK(Replay(Parent(b)), b)
-                  /\ (IsNrd(tree[b].tx) => NrdOK(NrdHist(Parent(b), NrdKey(tree[b].tx)), b))
+                  /\ NrdOKb(b)
                   /\ LateOK(b)
 ValidIdsT == (0..Trunk) \cup {b \in Ids : b > Trunk /\ ValidT(b)}
 
@@ -98,7 +102,19 @@ MintSim ==
              ELSE (IF r <= 3 \/ bt = {} THEN NoTx
                    ELSE IF r <= 8 /\ good # {} THEN RandomElement(good)
                    ELSE RandomElement(bt))} :
-         Mint(p, d, IF f0 # "ok" THEN NoTx ELSE t, f0)
+  \* blocks corrupted at a late stage keep their transaction: the failure comes after the inputs were pruned
+  \E t1 \in {IF f0 \in LateFlags \cup {"ok"} THEN t ELSE NoTx} :
+  \* a second transaction (second kernel) in the two-transaction shapes: mostly one that is valid next to t1, sometimes
+  \* one with a lock height / NRD kernel at the edge, so that the pair has one passing and one failing kernel
+  \E r2 \in {RandomElement(1..10)} :
+  \E cand2 \in {IF ShapeTwo /\ HasTx(t1) /\ f0 = "ok" THEN Tx2Choices(Height(p) + 1, t1) \cap bt ELSE {}} :
+  \E good2 \in {cand2 \cap good} :
+  \E edge2 \in {{x \in cand2 : x.ins \subseteq mature /\ x.outs \cap live = {} /\ x.lock # 0}} :
+  \E t2 \in {IF r2 <= 3 \/ cand2 = {} THEN NoTx
+              ELSE IF r2 <= 6 /\ good2 # {} THEN RandomElement(good2)
+              ELSE IF edge2 # {} THEN RandomElement(edge2)
+              ELSE IF good2 # {} THEN RandomElement(good2) ELSE NoTx} :
+         Mint2(p, d, t1, t2, f0)
 \* one random delivery per step, biased towards blocks whose body is not stored yet and whose
 \* parent header is known
 DeliverSim ==
@@ -128,11 +144,27 @@ DeliverSim ==
 SimNext == \/ MintSim
            \/ (AllMinted /\ DeliverSim)
            \/ (SimProfile # "orphans" /\ \E r \in {RandomElement(1..6)} : r = 1 /\ Reopen)
+           \/ (TxShapes # "none" /\ \E r \in {RandomElement(1..7)} : r = 1 /\          \* a restart on a damaged output_pos index
+                  \E live \in {{n.u.outs[i].c : i \in n.u.unspent} \ {0}} :
+                  \E r1 \in {RandomElement(0..2)} : \E r2 \in {RandomElement(1..3)} :
+                  \E del \in {{c \in live : (c + r1) % r2 = 0}} :                      \* all / a half / a third of the entries lost
+                  \E keys \in {(AllCommits \ {0})} :
+                  \E k1 \in {RandomElement(keys)} : \E k2 \in {RandomElement(keys)} :
+                  \E l1 \in {RandomElement(1..(Len(n.u.outs) + 1))} : \E l2 \in {RandomElement(1..(Len(n.u.outs) + 1))} :
+                  \E ns \in {RandomElement(0..2)} :
+                  \E st \in {IF ns = 0 THEN <<>> ELSE IF ns = 1 \/ k1 = k2 THEN (k1 :> l1) ELSE (k1 :> l1) @@ (k2 :> l2)} :
+                    (del # {} \/ st # <<>>) /\ Reindex(del, st))
            \/ (TxShapes # "none" /\ \E r \in {RandomElement(1..5)} : r = 1 /\                       \* a pool-facing query about a random transaction
                   \E bt \in {BalancedTxs(9999, Height(n.head) + 1)} : bt # {} /\
                   \E live \in {{n.u.outs[i].c : i \in n.u.unspent}} :
                   \E cand \in {{t \in bt : t.ins \subseteq live}} :                                  \* mostly spends of existing outputs (mature or not)
-                  \E t \in {IF cand # {} /\ RandomElement(1..3) <= 2 THEN RandomElement(cand) ELSE RandomElement(bt)} : QueryTx(t))
+                  \E t \in {IF cand # {} /\ RandomElement(1..3) <= 2 THEN RandomElement(cand) ELSE RandomElement(bt)} :
+                  \* in the two-transaction shapes: mostly about the aggregate of two transactions
+                  \E c2 \in {IF ShapeTwo THEN Tx2Choices(Height(n.head) + 1, t) \cap bt ELSE {}} :
+                  \E c2l \in {{x \in c2 : x.ins \subseteq live}} :
+                  \E t2 \in {IF c2 = {} \/ RandomElement(1..4) = 1 THEN NoTx
+                              ELSE IF c2l # {} /\ RandomElement(1..3) <= 2 THEN RandomElement(c2l) ELSE RandomElement(c2)} :
+                    QueryTx2(t, t2))
            \/ (SimProfile = "compact" /\ \E r \in {RandomElement(1..3)} : r = 1 /\ CompactCall)
            \/ (SimProfile = "compact" /\ AllMinted /\ ndel = 0 /\                               \* headers run ahead of the bodies first
                   \E cand \in {{x \in ValidIdsT : Height(x) - Trunk \in {2, 3} /\ IsAnc(Trunk, x)}} :
@@ -145,31 +177,31 @@ SimNext == \/ MintSim
            \/ (SimProfile \in {"compact", "reset"} /\ \E r \in {RandomElement(1..(IF SimProfile = "reset" THEN 3 ELSE 8))} : r = 1 /\
                   \E cand \in {{x \in n.hdrs : Height(LCA(n.head, x)) >= n.hz /\ Height(x) + 25 >= Height(n.head)}} :
                   \E b \in {RandomElement(cand)} : ResetHead(b))
-MCSimSpec == Init /\ TrunkStored /\ hist = <<>> /\ [][SimNext /\ hist' = IF last'.k \in {"ProcessHeader", "ProcessBlock", "Reopen", "SyncHeaders", "Compact", "ResetHead", "Probe", "QueryTx"}
-                     THEN Append(hist, [k |-> last'.k, b |-> last'.b, res |-> last'.res, proj |-> Proj(n'),
-                                        cnt |-> IF last'.k = "SyncHeaders" THEN last'.cnt ELSE 0,
-                                        sh |-> IF last'.k = "SyncHeaders" THEN last'.sh ELSE 0,
-                                        ret |-> IF last'.k = "SyncHeaders" THEN last'.ret ELSE "-",
-                                        uat |-> IF last'.k = "Probe" THEN UnspentAt(last'.b) ELSE {},
-                                        notes |-> IF last'.k = "ProcessBlock" THEN last'.notes ELSE <<>>,
-                                        tx |-> IF last'.k = "QueryTx" THEN last'.tx ELSE NoTx])
+Recorded == {"ProcessHeader", "ProcessBlock", "Reopen", "Reindex", "SyncHeaders", "Compact", "ResetHead", "Probe", "QueryTx"}
+HistRec == [k |-> last'.k, b |-> last'.b, res |-> last'.res, proj |-> Proj(n', ndel'),
+            cnt |-> IF last'.k = "SyncHeaders" THEN last'.cnt ELSE 0,
+            sh |-> IF last'.k = "SyncHeaders" THEN last'.sh ELSE 0,
+            ret |-> IF last'.k = "SyncHeaders" THEN last'.ret ELSE "-",
+            uat |-> IF last'.k = "Probe" THEN UnspentAt(last'.b) ELSE {},
+            notes |-> IF last'.k = "ProcessBlock" THEN last'.notes ELSE <<>>,
+            why |-> IF last'.k = "ProcessBlock" THEN last'.why ELSE "-",
+            del |-> IF last'.k = "Reindex" THEN last'.del ELSE {},
+            stale |-> IF last'.k = "Reindex" THEN last'.stale ELSE {},
+            tx |-> IF last'.k = "QueryTx" THEN last'.tx ELSE NoTx,
+            tx2 |-> IF last'.k = "QueryTx" THEN last'.tx2 ELSE NoTx]
+MCSimSpec == Init /\ TrunkStored /\ hist = <<>> /\ [][SimNext /\ hist' = IF last'.k \in Recorded
+                     THEN Append(hist, HistRec)
                      ELSE hist]_mcvars
 
 MCInit == Init /\ hist = <<>>
 \* with the operator action (only for configurations that check the C02 invariants)
-NextR == Next \/ (\E b \in Ids : ResetHead(b))
+NextR == NextX \/ (\E b \in Ids : ResetHead(b))
 MCNextR == /\ NextR
            /\ hist' = hist
 MCSpecR == MCInit /\ [][MCNextR]_mcvars
 MCNext == /\ Next
-          /\ hist' = IF last'.k \in {"ProcessHeader", "ProcessBlock", "Reopen", "SyncHeaders", "Compact", "ResetHead", "Probe", "QueryTx"}
-                     THEN Append(hist, [k |-> last'.k, b |-> last'.b, res |-> last'.res, proj |-> Proj(n'),
-                                        cnt |-> IF last'.k = "SyncHeaders" THEN last'.cnt ELSE 0,
-                                        sh |-> IF last'.k = "SyncHeaders" THEN last'.sh ELSE 0,
-                                        ret |-> IF last'.k = "SyncHeaders" THEN last'.ret ELSE "-",
-                                        uat |-> IF last'.k = "Probe" THEN UnspentAt(last'.b) ELSE {},
-                                        notes |-> IF last'.k = "ProcessBlock" THEN last'.notes ELSE <<>>,
-                                        tx |-> IF last'.k = "QueryTx" THEN last'.tx ELSE NoTx])
+          /\ hist' = IF last'.k \in Recorded
+                     THEN Append(hist, HistRec)
                      ELSE hist
 MCSpec == MCInit /\ [][MCNext]_mcvars
 
@@ -178,7 +210,7 @@ View == <<tree, n, ndel>>
 RecentParents == \A b \in Ids : b > Trunk => tree[b].parent >= Trunk - 1
 
 Done == AllMinted /\ ndel = MaxDeliveries
-Behaviour == [trunk |-> Trunk, pool |-> [c \in Pool |-> PoolVal[c]], tree |-> [b \in Ids |-> tree[b]], steps |-> hist,
+Behaviour == [trunk |-> Trunk, pool |-> [c \in Pool |-> PoolVal[c]], tree |-> [b \in Ids |-> tree[b]], steps |-> hist, shapes |-> TxShapes,
               valid |-> ValidIdsT, works |-> [b \in Ids |-> Work(b)]]
 Emit == Done => PrintT(<<"CHAINBEH", ToJson(Behaviour)>>)
 
